@@ -4,7 +4,7 @@
    whole methods are not modelled: they are decided by compiling the decompiler's output with javac and running it
    against an independent interpreter of the bytecode. *)
 From Coq Require Import ZArith List Bool.
-Require Import V.Lib.Val V.Lib.Result V.Dad.OpSemantics V.Dad.OpProofs V.gen.Gen_OpTable.
+Require Import V.Lib.Val V.Lib.Result V.Dad.OpSemantics V.Dad.OpProofs V.gen.Gen_OpTable V.gen.Gen_CondTable.
 Import ListNotations.
 Open Scope Z_scope.
 
@@ -17,6 +17,19 @@ Print Assumptions C21_every_operator_translation_is_exact.
 Theorem C21_the_table_covers_all_arithmetic_opcodes : map fst op_table = arith_opcodes.
 Proof. exact op_table_covers. Qed.
 Print Assumptions C21_the_table_covers_all_arithmetic_opcodes.
+
+(* the conditional branches 0x32-0x3d: the comparison that is printed (a OP b, a OP 0) is true exactly when the
+   instruction branches, for all operand values; the table covers the twelve opcodes *)
+Theorem C21_every_branch_condition_is_exact : Forall centry_ok cond_table /\ map fst cond_table = map (fun k => 50 + Z.of_nat k) (seq 0 12).
+Proof. exact (conj cond_table_correct cond_table_covers). Qed.
+Print Assumptions C21_every_branch_condition_is_exact.
+(* the table CONDS with which the decompiler negates a comparison (Condition.neg, loop and if structuring, C25): every
+   operator is mapped to the operator with the complementary truth value for all operands, and every operator a branch is
+   printed with has an entry *)
+Theorem C21_negated_comparisons_are_complements : Forall complement_ok conds /\
+  forallb (fun p => existsb (fun q => str_eqb (fst q) (match snd p with Cond op | CondZ op => op end)) conds) cond_table = true.
+Proof. exact (conj conds_are_complements conds_cover_the_branch_operators). Qed.
+Print Assumptions C21_negated_comparisons_are_complements.
 
 Example C21_nonvacuous :
   dalvik 147 (-7) 2 = Ok (-3) /\ dalvik 148 (-7) 2 = Ok (-1) /\ dalvik 147 5 0 = Err OtherError /\ dalvik 154 (-1) 28 = Ok 15 /\
